@@ -33,6 +33,9 @@ BOUNDS = {
     "thorough": {"encode/decode": "as quick plus a symbolic 1..3 character hrp", "decoder differential": "data part 6..20, lengths 39..74",
                  "case": "12 characters", "error detection": "as quick, plus the independent encoding with 2 symbolic positions"},
 }
+BOUNDS_ADDED = 'one character outside 33..126 (any code point up to U+10FFFF) in prefix or data part, lower- and upper-case addresses; the same address decoded twice with the first result mutated by the caller; helper.bech32_decode_address against the BIP173/350 reference on fully symbolic data parts'
+for _t in ("quick", "thorough"):
+    BOUNDS[_t]["histories, lifetimes, injected faults, boundary vectors"] = BOUNDS_ADDED
 STUBS = []
 ASSUMPTIONS = ["the composition 'linearity + injectivity + column lemmas => every <=4-substitution is rejected' is the standard "
                "linear-code argument (written out in DESIGN.md); it is not mechanised"]
